@@ -192,7 +192,16 @@ def check(ctx):
             acc = [e for e, l in flat_effects(s.effects) if e['kind'] == 'hcall'
                    and e['name'] == 'hep::accumulate']
             if len(acc) < 1:
-                raise AnalysisBroken('callback does not combine the results with hep::accumulate')
+                # no combination of the checkpoint's results at all: whatever the decision is computed from (running
+                # totals kept in the callback object, the last result only), a run resumed from a non-empty
+                # checkpoint - which starts with a fresh callback - decides differently from the uninterrupted one
+                own = sorted(set(t[2] for t in T.subterms(ret) if isinstance(t, tuple) and len(t) == 3 and t[0] == 'fld'
+                                 and t[1] == th and t[2] != 'target_rel_err_'))
+                ctx.violation('R3.all_results', where, 'the decision is not computed from a combination of all results '
+                              'of the checkpoint (no hep::accumulate over chkpt.results())%s'
+                              % (': it reads the callback\'s own members %s, which start empty in a resumed run' % own
+                                 if own else ''), {'decision': T.pretty(ret)[:400]})
+                return
             a = acc[0]
             results = fld(sym('chkpt'), 'results_')
             want_args = [('iter', results, ZERO), ('iter', results, T.size(results))]
